@@ -45,6 +45,8 @@ def run(ctx):
     coros = [prog.bodies[p] for p in r.GETTER if prog.bodies[p].is_coroutine] + [r.GET]
     total_y = 0
     owned = owned_obj_pred(r)
+    UG, ug_bb, ug_stmt, ug_how, ug_drop = r.users_guard()
+    ctx.role('G.USERS', '%s (%s)' % (UG, ug_how[0]))
 
     for b in coros:
         ctx.saw(b)
@@ -54,17 +56,19 @@ def run(ctx):
         is_root = b.path == root.path
         unready_aggs = [blk.idx for blk in b.blocks for s in blk.stmts
                         if s.kind == 'assign' and s.rv.kind == 'agg' and s.rv.j.get('adt') == r.UNREADY]
+        ready_calls = [blk.idx for blk in b.blocks if blk.term.kind == 'call' and not blk.cleanup and blk.term.args and blk.term.args[0].kind == 'move'
+                       and adt_of(b.locals[blk.term.args[0].place.local]['ty']) == r.UNREADY and not b.locals[blk.term.args[0].place.local]['ty'].startswith('&')]
         for y in ys:
             line = y.term.line
             w = ctx.where(b, line)
             # --- R03.1: guards held ---------------------------------------
             if is_root:
-                held = held_locals(an, y.idx, r.DROPGUARD)
+                held = held_locals(an, y.idx, UG)
                 ctx.ob('R03.1', 'users guard held at suspension point', bool(held), w,
                        'get() can be cancelled here without undoing its users += 1' if not held else '',
                        construct='yield:users-guard', sites=[w])
                 _check_cancel_drops(ctx, an, b, y, held, 'users guard')
-            if unready_aggs and any(y.idx in an.reach_after(a, ('normal',)) for a in unready_aggs):
+            if unready_aggs and any(an.dominates(a, y.idx) for a in unready_aggs) and not any(an.dominates(c_, y.idx) for c_ in ready_calls):
                 held = held_locals(an, y.idx, r.UNREADY)
                 ctx.ob('R03.1', 'not-ready wrapper owns the object at suspension point', bool(held), w,
                        'the object taken from / created for the pool is not owned by %s here: cancellation would leak its size slot and skip detach'
@@ -82,9 +86,9 @@ def run(ctx):
                     ctx.undecide('R03.1x', 'no coroutine layout variant on line %s of %s' % (line, b.name))
                 else:
                     if is_root:
-                        okl = any(any(adt_of(f['ty']) == r.DROPGUARD for f in v['saved']) for v in variants)
+                        okl = any(any(adt_of(f['ty']) == UG for f in v['saved']) for v in variants)
                         ctx.ob('R03.1x', 'layout: users guard saved across the await', okl, w,
-                               'rustc does not keep a DropGuard in the coroutine state at this await', construct='layout:users-guard')
+                               'rustc does not keep the users guard in the coroutine state at this await', construct='layout:users-guard')
                     for v in variants:
                         # the layout is conservative for partially moved enums (drop flags), so only objects saved
                         # directly by value count here; Option-wrapped ones are decided by the dataflow above
@@ -100,15 +104,18 @@ def run(ctx):
                 continue
             names = t.callee_names()
             which = None
-            if any(n == strip_generics(r.DROPGUARD) + '::disarm' for n in names) or \
-                    (names & {'std::mem::forget'} and t.args and adt_of(b.locals[t.args[0].place.local]['ty'] if t.args[0].kind != 'const' else '') == r.DROPGUARD):
+            if t.args and t.args[0].kind == 'move' and adt_of(b.locals[t.args[0].place.local]['ty']) == UG and not b.locals[t.args[0].place.local]['ty'].startswith('&'):
                 which = 'users guard disarmed'
             elif any(n.startswith(strip_generics(r.UNREADY) + '::') for n in names) and t.args and t.args[0].kind == 'move' and \
                     adt_of(b.locals[t.args[0].place.local]['ty']) == r.UNREADY and not b.locals[t.args[0].place.local]['ty'].startswith('&'):
                 which = 'wrapper consumed (ready)'
             if not which:
                 continue
-            after = an.reach_after(blk.idx, ('normal', 'unwind', 'cancel'))
+            # a consumed wrapper: flow that goes back to take / wrap another object starts a new obligation
+            stop = []
+            if which.startswith('wrapper'):
+                stop = unready_aggs + [q.idx for q, m_ in queue_calls(r, b, an) if m_.startswith('pop')]
+            after = an.reach_after(blk.idx, ('normal', 'unwind', 'cancel'), avoid=stop)
             bad = []
             for x in sorted(after):
                 if b.blocks[x].cleanup:
@@ -123,7 +130,8 @@ def run(ctx):
                     bad.append('error return at line %s' % b.blocks[bb2].term.line)
             ctx.ob('R03.2', '%s only where nothing can fail or suspend afterwards' % which, not bad, ctx.where(b, t.line),
                    '; '.join(bad[:4]), construct='consumer-then-fallible:%s:%s' % (which.split()[0], b.name), sites=[ctx.where(b, t.line)])
-            ctx.ob('R03.2', '%s not inside a loop' % which, not in_cycle(an, blk.idx), ctx.where(b, t.line), '', construct='consumer-in-loop:' + b.name)
+            again = blk.idx in an.reach_after(blk.idx, ('normal',), avoid=stop if which.startswith('wrapper') else [ug_bb] if b.path == root.path else [])
+            ctx.ob('R03.2', '%s once per guard' % which, not again, ctx.where(b, t.line), 'the consumer can run again without a new guard having been created', construct='consumer-in-loop:' + b.name)
 
         # --- R03.4 the idle object is wrapped before anything can fail or suspend ----
         if unready_aggs:
@@ -138,7 +146,7 @@ def run(ctx):
                            'an idle object is handled unwrapped at this point' if not ok else '', construct='wrap-late:' + b.name)
 
     ctx.count('suspension_points', total_y)
-    ctx.floor('R03.1', 'suspension points in the getter region', total_y, 13)
+    ctx.floor('R03.1', 'suspension points in the getter region', total_y, 9)
 
     # ---- R03.1 (unwind): the guards are also live across every call that can run user code ----
     for p in r.GETTER:
@@ -148,7 +156,9 @@ def run(ctx):
         for blk, what in user_code_calls(b):
             if b.is_coroutine or True:
                 unready_aggs = [x.idx for x in b.blocks for s in x.stmts if s.kind == 'assign' and s.rv.kind == 'agg' and s.rv.j.get('adt') == r.UNREADY]
-                if unready_aggs and any(blk.idx in an.reach_after(a, ('normal',)) or a == blk.idx for a in unready_aggs):
+                rc_ = [x.idx for x in b.blocks if x.term.kind == 'call' and not x.cleanup and x.term.args and x.term.args[0].kind == 'move'
+                       and adt_of(b.locals[x.term.args[0].place.local]['ty']) == r.UNREADY and not b.locals[x.term.args[0].place.local]['ty'].startswith('&')]
+                if unready_aggs and any(an.dominates(a, blk.idx) for a in unready_aggs) and not any(an.dominates(c_, blk.idx) for c_ in rc_):
                     held = held_locals(an, blk.idx, r.UNREADY)
                     ctx.ob('R03.1u', 'wrapper live across user callback (panic = unwind edge)', bool(held), ctx.where(b, blk.term.line),
                            'a panic in %s unwinds past an unwrapped object' % what if not held else '', construct='unwind:unready:' + b.name)
@@ -159,39 +169,35 @@ def run(ctx):
             and _atomic_field(an, blk.term, r.INNER, r.USERS)]
     ctx.ob('R03.3', 'exactly one users += 1 at entry', len(adds) == 1 and an.resolve_operand(adds[0].term.args[1]) == '1_usize' if adds else False,
            ctx.where(root, adds[0].term.line) if adds else ctx.where(root), '%d fetch_add sites on users' % len(adds), construct='users-inc')
-    dg_aggs = [(blk, s) for blk in root.blocks for s in blk.stmts if s.kind == 'assign' and s.rv.kind == 'agg' and s.rv.j.get('adt') == r.DROPGUARD]
-    ctx.ob('R03.3', 'users guard constructed once', len(dg_aggs) == 1, ctx.where(root), '%d DropGuard constructions' % len(dg_aggs), construct='users-guard-construct')
-    if adds and dg_aggs:
-        gb, gs = dg_aggs[0]
+    gb = root.blocks[ug_bb]; gs = ug_stmt
+    if adds:
         # no suspension / fallible exit between the increment and the guard
         between = an.reach_after(adds[0].idx, ('normal',), avoid=[gb.idx])
         bad = [x for x in between if root.blocks[x].term.kind in ('yield', 'return')]
         ctx.ob('R03.3', 'guard armed immediately after users += 1', an.dominates(adds[0].idx, gb.idx) and not bad, ctx.where(root, gs.line), '', construct='users-guard-gap')
-        # the closure carried by the guard
-        cl = [s for s in sources(an, gs.rv.ops[0]) if s[0] == 'closure']
-        if len(cl) != 1:
-            ctx.undecide('R03.3', 'cannot identify the closure carried by the users guard')
-        else:
-            cb = prog.bodies.get(cl[0][1])
-            ctx.saw(cb)
-            can = prog.an(cb)
-            subs = [blk for blk in cb.blocks if blk.term.kind == 'call' and any(n.endswith('::fetch_sub') for n in blk.term.callee_names())]
-            ok = len(subs) == 1 and can.resolve_operand(subs[0].term.args[1]) == '1_usize' and _atomic_field(can, subs[0].term, r.INNER, r.USERS)
-            ctx.ob('R03.3', 'guard closure performs users -= 1 on the same counter', ok, ctx.where(cb),
-                   'closure does %s' % [can.resolve_operand(a) for s_ in subs for a in s_.term.args[:2]], construct='users-guard-closure')
-            others = [blk for blk in cb.blocks if blk.term.kind == 'call' and blk.idx not in [s_.idx for s_ in subs]
-                      and not any(n.startswith('<std::sync::Arc') or 'Deref' in n for n in blk.term.callee_names())]
-            ctx.ob('R03.3', 'guard closure does nothing else', not others, ctx.where(cb), '', construct='users-guard-closure-extra')
-    # Drop for the users guard type calls the closure it carries; disarm forgets it
-    dgd = [b for b in prog.bodies.values() if b.j.get('impl_trait') == 'std::ops::Drop' and adt_of(b.j.get('impl_self', '')) == r.DROPGUARD]
-    if len(dgd) != 1:
-        ctx.undecide('R03.3', 'Drop impl of the users guard type not found')
-    else:
-        d = dgd[0]
+    if ug_how[0] == 'closure':
+        cb = prog.bodies.get(ug_how[1])
+        ctx.saw(cb)
+        can = prog.an(cb)
+        subs = [blk for blk in cb.blocks if blk.term.kind == 'call' and any(n.endswith('::fetch_sub') for n in blk.term.callee_names())]
+        ok = len(subs) == 1 and can.resolve_operand(subs[0].term.args[1]) == '1_usize' and _atomic_field(can, subs[0].term, r.INNER, r.USERS)
+        ctx.ob('R03.3', 'guard closure performs users -= 1 on the same counter', ok, ctx.where(cb),
+               'closure does %s' % [can.resolve_operand(a) for s_ in subs for a in s_.term.args[:2]], construct='users-guard-closure')
+        others = [blk for blk in cb.blocks if blk.term.kind == 'call' and blk.idx not in [s_.idx for s_ in subs]
+                  and not any(n.startswith('<std::sync::Arc') or 'Deref' in n for n in blk.term.callee_names())]
+        ctx.ob('R03.3', 'guard closure does nothing else', not others, ctx.where(cb), '', construct='users-guard-closure-extra')
+        d = ug_drop
         ctx.saw(d)
         calls = [blk for blk in d.blocks if is_dyn_call(blk.term) or any(n.endswith('Fn::call') for n in blk.term.callee_names())]
         ctx.ob('R03.3', 'Drop for the guard type invokes its closure exactly once', len(calls) == 1 and not in_cycle(prog.an(d), calls[0].idx) if calls else False,
                ctx.where(d), '%d closure invocations' % len(calls), construct='dropguard-drop')
+    else:
+        d = ug_drop
+        ctx.saw(d)
+        dan = prog.an(d)
+        subs = [blk for blk in d.blocks if blk.term.kind == 'call' and not blk.cleanup and any(n.endswith('::fetch_sub') for n in blk.term.callee_names())]
+        ok = len(subs) == 1 and dan.resolve_operand(subs[0].term.args[1]) == '1_usize' and not in_cycle(dan, subs[0].idx)
+        ctx.ob('R03.3', 'Drop for the users guard performs users -= 1 exactly once', ok, ctx.where(d), '%d fetch_sub calls' % len(subs), construct='users-guard-closure')
     check_unready_drop(ctx, r, 'R03.3')
 
     ctx.not_decided += [
